@@ -109,8 +109,16 @@ where
             }
         };
 
-        let x = self.into();
-        let total = x + y;
+        let x: CanonicalAssets = self.into();
+
+        let total = x.clone().checked_add(y.clone()).ok_or_else(|| {
+            Error::InvalidBinaryOp(
+                "add (arithmetic overflow)".to_string(),
+                format!("{x}"),
+                format!("{y}"),
+            )
+        })?;
+
         Ok(Expression::Assets(total.into()))
     }
 
@@ -120,7 +128,12 @@ where
     }
 
     fn neg(self) -> Result<Expression, Error> {
-        let negated = std::ops::Neg::neg(self.into());
+        let x: CanonicalAssets = self.into();
+
+        let negated = x.clone().checked_neg().ok_or_else(|| {
+            Error::InvalidUnaryOp("neg (arithmetic overflow)".to_string(), format!("{x}"))
+        })?;
+
         Ok(Expression::Assets(negated.into()))
     }
 }
@@ -269,9 +282,10 @@ impl Coerceable for Expression {
             Expression::Assets(x) => Ok(Expression::Assets(x)),
             Expression::UtxoSet(x) => {
                 let all = x
-                    .into_iter()
-                    .map(|x| x.assets)
-                    .fold(CanonicalAssets::empty(), |acc, x| acc + x);
+                    .iter()
+                    .map(|x| x.assets.clone())
+                    .try_fold(CanonicalAssets::empty(), |acc, x| acc.checked_add(x))
+                    .ok_or_else(|| Error::CannotCoerceIntoAssets(Expression::UtxoSet(x.clone())))?;
 
                 Ok(Expression::Assets(all.into()))
             }
